@@ -85,16 +85,32 @@ func setBuilderKeys(c *core.Ctx, call *ssa.Call) []string {
 		return nil
 	}
 	made := map[ssa.Value]bool{}
+	var keys []string
 	for _, rb := range an.ReturnBlocks(g) {
 		for _, rv := range an.ReturnValues(an.LastInstr(rb).(*ssa.Return)) {
 			for _, src := range an.Sources(g, rv) {
 				if _, isMake := src.(*ssa.MakeMap); isMake {
 					made[src] = true
 				}
+				// the set is built one level further down: `return newSet(keys)`
+				if inner, isCall := src.(*ssa.Call); isCall && inner != call {
+					for _, k := range setBuilderKeys(c, inner) {
+						// k is in g's terms: rewrite g's parameters into the caller's arguments
+						for i, par := range g.Params {
+							root := "p:" + par.Name()
+							if i == 0 && g.Signature.Recv() != nil {
+								root = "recv"
+							}
+							if i < len(call.Call.Args) && strings.HasPrefix(k, root) {
+								k = an.PathOf(call.Call.Args[i]) + strings.TrimPrefix(k, root)
+							}
+						}
+						keys = append(keys, k)
+					}
+				}
 			}
 		}
 	}
-	var keys []string
 	an.Instrs(g, func(in ssa.Instruction) {
 		if mu, ok := in.(*ssa.MapUpdate); ok {
 			for _, src := range an.Sources(g, mu.Map) {
@@ -124,9 +140,9 @@ func runFltExh(c *core.Ctx) {
 		// private copies: which recv.f.X are read by Match ∪ LimitMatch ∪ Done
 		copies := map[string]bool{}
 		for _, fn := range []*ssa.Function{match, done, lm} {
-			an.Instrs(fn, func(in ssa.Instruction) {
-				if u, ok := in.(*ssa.UnOp); ok && u.Op == token.MUL {
-					p := an.PathOf(u)
+			an.Region(fn, nil, func(o an.Occ) {
+				if u, ok := o.In.(*ssa.UnOp); ok && u.Op == token.MUL {
+					p := o.Path(u)
 					if strings.HasPrefix(p, "recv.f.") && strings.Count(p, ".") == 2 && !strings.ContainsAny(p, "[(") {
 						copies[strings.TrimPrefix(p, "recv.f.")] = true
 					}
@@ -298,11 +314,13 @@ func runFltBnd(c *core.Ctx) {
 			txt   string
 		}{{"Since", an.Range(0, an.PosInf), "[since,+∞)"}, {"Until", an.Range(an.NegInf, 0), "(-∞,until]"}} {
 			sym := "recv.f." + row.field
-			fr := an.SymFrame(subj, sym)
-			t, _, n, ok := fr.FuncBoolMeaning(match, 0, nonNilOnPath(sym), nil)
+			// with the bound present (wherever its presence is tested: in Match or in a
+			// predicate helper Match delegates to)
+			fr := an.SymFrame(subj, sym).AssumePresent(sym)
+			t, _, n, ok := fr.FuncBoolMeaning(match, 0, nil, nil)
 			c.CountPaths(n)
 			if !ok || n == 0 {
-				c.Unknown([]string{"C02"}, fname(c, match), "bound("+row.field+")", P.Pos(match.Pos()), "no path tests "+row.field+" present")
+				c.Unknown([]string{"C02"}, fname(c, match), "bound("+row.field+")", P.Pos(match.Pos()), "too many paths")
 				continue
 			}
 			c.Check(t.Equal(row.want), []string{"C02"}, fname(c, match), "bound("+row.field+")", P.Pos(match.Pos()),
